@@ -29,6 +29,9 @@ def build_static_tree(base: Path):
     (outside / "secret.txt").write_text("SECRET-OUTSIDE\n")
     (outside / "index.gmi").write_text("SECRET-OUTSIDE-INDEX\n")
     (sibling / "secret2.txt").write_text("SECRET-SIBLING\n")
+    (base / "outside2" / "keys").mkdir(parents=True)                          # an outside directory WITHOUT an index file
+    (base / "outside2" / "private-key.txt").write_text("SECRET-OUTSIDE2\n")
+    os.symlink("../outside2", root / "shared")
     os.symlink("../../outside/secret.txt", root / "sub" / "index.gmi")        # index file pointing outside
     os.symlink("../outside", root / "linkdir")                                # directory link to outside
     os.symlink("../outside/secret.txt", root / "linkfile.gmi")                # file link to outside
@@ -46,7 +49,7 @@ SPELLINGS = [
     "/./../outside/secret.txt", "//../outside/secret.txt", "/sub/", "/sub", "/sub/index.gmi", "/linkdir/secret.txt", "/linkdir/", "/linkdir", "/linkfile.gmi",
     "/abs-sibling.gmi", "/../root-evil/secret2.txt", "/%2e%2e/root-evil/secret2.txt", "/..\\outside\\secret.txt", "/%5c..%5coutside", "/a.gmi%00", "/%00", "/a.gmi/",
     "/a.gmi/.", "/a.gmi.", "/dangling", "/loop1", "/loop1/x", "/idx/", "/idx", "/" + "x" * 300, "/" + "y/" * 200, "/%01%02", "/a.gmi;v=1", "/;", "/sub2/", "/sub2",
-    "/", "", "/deep/nested/../../a.gmi", "/deep//nested///file.gmi", "/%2Fetc%2Fpasswd", "//etc/passwd", "/indirlink/file.gmi", "/inlink.gmi", "/sp%20ace%20dir/",
+    "/shared/", "/shared", "/shared/keys/", "/%2e%2e/outside2/", "/sub/%2e%2e/%2e%2e/outside2/", "/", "", "/deep/nested/../../a.gmi", "/deep//nested///file.gmi", "/%2Fetc%2Fpasswd", "//etc/passwd", "/indirlink/file.gmi", "/inlink.gmi", "/sp%20ace%20dir/",
 ]
 
 
@@ -71,7 +74,7 @@ def static_bank():
     tried = 0
     try:
         root, files = build_static_tree(base)
-        secrets = ["SECRET-OUTSIDE", "SECRET-SIBLING", "SECRET-OUTSIDE-INDEX"]
+        secrets = ["SECRET-OUTSIDE", "SECRET-SIBLING", "SECRET-OUTSIDE-INDEX", "private-key.txt"]
         for listing in (False, True):
             h = StaticFileHandler(root, enable_directory_listing=listing)
             # 1. nothing from outside the root, whatever the spelling
